@@ -72,6 +72,9 @@ def setup_tree(root: Path):
     (root / "f6").write_text("#include 'x6'\n#include 'y6'\nm6  1;\n")
     (root / "x6").write_text("#include 'y6'\nx6  2;\n")
     (root / "y6").write_text("y6  3; // comment in y6\n")
+    # two XML documents that bind ONE namespace URI to different prefixes (default namespace / prefix cfg)
+    (root / "f7.xml").write_text('<?xml version="1.0"?>\n<Config xmlns="http://example.org/ns"><name>plain</name><n>1</n></Config>\n')
+    (root / "f8.xml").write_text('<?xml version="1.0"?>\n<cfg:Config xmlns:cfg="http://example.org/ns"><cfg:name>pre</cfg:name><cfg:n>2</cfg:n></cfg:Config>\n')
 
 
 def canon(d):
@@ -115,6 +118,10 @@ def do_op(root: Path, op: str, spelling: str, out_tag: str):
     if op == "parse6":
         dictIO.DictParser.parse(P("f6"))
         return ("bytes", (root / "parsed.f6").read_bytes())
+    if op in ("parsex7", "parsex8"):
+        n = op[-1]
+        dictIO.DictParser.parse(P(f"f{n}.xml"), output="xml")
+        return ("bytes", (root / f"parsed.f{n}.xml").read_bytes())
     if op == "read5":
         return ("data", canon(dictIO.DictReader.read(P("f5"))))
     if op == "read4":
@@ -158,8 +165,8 @@ def do_op(root: Path, op: str, spelling: str, out_tag: str):
     raise ValueError(op)
 
 
-PREFIX_OPS = ["read1", "read2", "read3", "write", "parse", "dumpload", "reset", "read1o"]
-OBSERVED = ["read1", "read1o", "read1n", "read2", "read3", "read4", "read5", "read6", "parse6", "write", "writeo", "parse", "parseo", "parsej", "parse4", "dumpload", "writeback", "loaddump"]
+PREFIX_OPS = ["read1", "read2", "read3", "write", "parse", "dumpload", "reset", "read1o", "parsex7", "parsex8"]
+OBSERVED = ["parsex7", "parsex8", "read1", "read1o", "read1n", "read2", "read3", "read4", "read5", "read6", "parse6", "write", "writeo", "parse", "parseo", "parsej", "parse4", "dumpload", "writeback", "loaddump"]
 CWDS = [".", "sub", "sub/deep", "other"]
 # every offset of the wrap inside one read of f1 (about 14 placeholders): each placeholder gets id 0 under one of them
 COUNTERS = [-1, 5] + list(range(999984, 1000000))
@@ -287,6 +294,13 @@ def run(ctx):
         for obs in (OBSERVED if len(pre) <= 1 else rng.sample(OBSERVED, 3)):
             cases.append({"cwd": rng.choice(CWDS), "counter": rng.choice(COUNTERS[:2]), "prefix": list(pre),
                           "spelling": rng.choice(["rel", "abs", "dotdot"]), "observed": obs})
+    # the same operation replayed after itself and one other operation (o, p, o): per-process caches that an operation
+    # fills and another one invalidates
+    replay = [(o, q) for o in OBSERVED for q in PREFIX_OPS if q != o]
+    if ctx.tier == "quick":
+        replay = [x for x in replay if x[0].startswith("parsex") and x[1].startswith("parsex")] + rng.sample(replay, 40)
+    for o, q in replay:
+        cases.append({"cwd": rng.choice(CWDS), "counter": rng.choice(COUNTERS[:2]), "prefix": [o, q], "spelling": rng.choice(["rel", "abs", "dotdot"]), "observed": o})
     # every cwd x spelling x counter for every observed op (no prefix)
     for obs, cwd, sp, cnt in itertools.product(OBSERVED, CWDS, ["rel", "abs", "dotdot"], COUNTERS):
         if ctx.tier == "quick" and rng.random() < 0.6:
